@@ -18,7 +18,7 @@ pub const FAULT_NAMES: [&str; N_FAULTS] = [
     "F4-drop-panic(element destructor unwinds)",
     "F5-source-fault(EOF/surplus/panic/lying-hint in from_iter source)",
     "F6-default-panic(T::default unwinds)",
-    "F7-closure-panic(map_rows/map_cols callback unwinds)",
+    "F7-closure-panic(map/map2/zip/map_rows/map_cols callback unwinds)",
 ];
 
 macro_rules! probes {
@@ -56,9 +56,18 @@ probes! {
     P_NESTED_INNER_OBSERVE = 25, "observe on an inner (row/column) iterator";
     P_MAT_SWITCH_LAYOUT = 26, "matrix converted to the other storage layout";
     P_TAKECOUNT_PARTIAL = 27, "take(k).count() interrupted by a drop-panic, iterator still used afterwards";
-    P_CLOSURE_PANIC_FIRED = 28, "map_rows/map_cols closure panic fired";
+    P_CLOSURE_PANIC_FIRED = 28, "map / map2 / zip / map_rows / map_cols closure panic fired";
+    P_FROM_SLICE = 29, "from_slice (Copy elements) checked";
+    P_ORD_PROBE_ACTIVE = 30, "ordering probe found IntoIter<Tok>: PartialOrd";
+    P_SLICE_PROBE_ACTIVE = 31, "slice probe found IntoIter<Tok>: AsRef<[Tok]>";
+    P_MAT_OBSERVE = 32, "Debug/Hash/==/Display on a matrix";
+    P_MAT_MAP_LINES = 33, "map_rows / map_cols on a matrix";
+    P_ADAPT_PANIC_CONTINUES = 34, "history continued on the iterator after a callback of a std adaptor panicked";
+    P_NTH_DROP_PANIC = 35, "nth/nth_back interrupted by a panicking destructor of a skipped element, iterator still used afterwards";
+    P_FOLD_CLOSURE_PANIC = 36, "fold/rfold/consuming adaptor closure panicked (iterator dropped during unwinding)";
+    P_LOOP_BODY_PANIC = 37, "for-loop body panicked (iterator survives, history continues)";
 }
-pub const N_PROBES: usize = 29;
+pub const N_PROBES: usize = 38;
 
 pub const N_OPK: usize = 80;
 
@@ -158,6 +167,8 @@ pub struct Stats {
     pub callbacks_touch: u64,
     pub callbacks_default: u64,
     pub elements_created: u64,
+    pub adapt_counts: [u64; 23],
+    pub consume_counts: [u64; 6],
 }
 
 impl Stats {
@@ -178,6 +189,8 @@ impl Stats {
             callbacks_touch: 0,
             callbacks_default: 0,
             elements_created: 0,
+            adapt_counts: [0; 23],
+            consume_counts: [0; 6],
         }
     }
     pub fn merge(&mut self, o: &Stats) {
@@ -206,5 +219,11 @@ impl Stats {
         self.callbacks_touch += o.callbacks_touch;
         self.callbacks_default += o.callbacks_default;
         self.elements_created += o.elements_created;
+        for i in 0..23 {
+            self.adapt_counts[i] += o.adapt_counts[i];
+        }
+        for i in 0..6 {
+            self.consume_counts[i] += o.consume_counts[i];
+        }
     }
 }
